@@ -1032,13 +1032,64 @@ Lemma parser_constants : p2pkh_payload_len = 20%nat /\ p2sh_payload_len = 20%nat
   enc_bech32 = 1 /\ enc_bech32m = 2.
 Proof. repeat split; reflexivity. Qed.
 
+(* ---- well-formed network rows ---- *)
+Lemma wf_facts net : net_wf net = true ->
+  nr_std net = true /\
+  (forall pre, nr_pkh net = Some pre -> (length pre <= 2)%nat) /\
+  (forall pre, nr_sh net = Some pre -> (length pre <= 2)%nat) /\
+  (forall a b, nr_pkh net = Some a -> nr_sh net = Some b -> a <> b) /\
+  (forall h, nr_hrp net = Some h -> hrp_ok h = true) /\
+  nr_kinds net = kinds_from_prefixes net.
+Proof.
+  unfold net_wf. intros H. repeat (apply andb_true_iff in H; destruct H as [H ?]).
+  repeat split; auto.
+  - intros pre E. rewrite E in *. cbn in *. lia.
+  - intros pre E. rewrite E in *. cbn in *. lia.
+  - intros a b E1 E2 ->. rewrite E1, E2, bytes_eqb_refl in *. discriminate.
+  - intros h E. now rewrite E in *.
+  - revert H0. generalize (kinds_from_prefixes net). induction (nr_kinds net) as [|x l IH]; intros [|y m] Q; cbn in Q; try discriminate; auto.
+    apply andb_true_iff in Q. destruct Q as [Q1 Q2]. apply N.eqb_eq in Q1. subst. f_equal. auto.
+Qed.
+
+Lemma kinds_defined net k : In k (kinds_from_prefixes net) <-> kind_defined net k.
+Proof.
+  unfold kinds_from_prefixes, kind_defined. split.
+  - intros H. repeat (apply in_app_or in H; destruct H as [H|H]).
+    + destruct (nr_pkh net) eqn:E; cbn in H; [|contradiction]. destruct H as [<-|[]]. cbn. rewrite E. split; [lia|discriminate].
+    + destruct (nr_sh net) eqn:E; cbn in H; [|contradiction]. destruct H as [<-|[]]. cbn. rewrite E. split; [lia|discriminate].
+    + destruct (nr_hrp net) eqn:E; cbn in H; [|contradiction].
+      destruct H as [<-|[<-|[<-|[]]]]; cbn; rewrite E; (split; [lia|discriminate]).
+  - intros [Hk D]. assert (C : k = 0 \/ k = 1 \/ k = 2 \/ k = 3 \/ k = 4) by lia.
+    destruct C as [->|[->|[->|[->| ->]]]]; cbn [kind_prefix] in D.
+    + apply in_or_app. left. destruct (nr_pkh net); [now left|contradiction].
+    + apply in_or_app. right. apply in_or_app. left. destruct (nr_sh net); [now left|contradiction].
+    + apply in_or_app. right. apply in_or_app. right. destruct (nr_hrp net); [cbn; auto|contradiction].
+    + apply in_or_app. right. apply in_or_app. right. destruct (nr_hrp net); [cbn; auto|contradiction].
+    + apply in_or_app. right. apply in_or_app. right. destruct (nr_hrp net); [cbn; auto|contradiction].
+Qed.
+
+(* (version, length) identifies the segwit kind *)
+Lemma segwit_kind_unique k k' : 2 <= k <= 4 -> 2 <= k' <= 4 -> std_version k = std_version k' -> std_len k = std_len k' -> k = k'.
+Proof.
+  intros H H'. assert (C : k = 2 \/ k = 3 \/ k = 4) by lia. assert (C' : k' = 2 \/ k' = 3 \/ k' = 4) by lia.
+  destruct C as [->|[->| ->]]; destruct C' as [->|[->| ->]]; cbn; intros; try reflexivity; try discriminate; lia.
+Qed.
+
+Lemma kind_info_inj k k' p p' : k <= 4 -> k' <= 4 -> kind_info k p = kind_info k' p' -> k = k' /\ p = p'.
+Proof.
+  intros H H'. assert (C : k = 0 \/ k = 1 \/ k = 2 \/ k = 3 \/ k = 4) by lia.
+  assert (C' : k' = 0 \/ k' = 1 \/ k' = 2 \/ k' = 3 \/ k' = 4) by lia.
+  destruct C as [->|[->|[->|[->| ->]]]]; destruct C' as [->|[->|[->|[->| ->]]]]; cbn [kind_info]; intros E;
+    try discriminate; injection E as ->; auto.
+Qed.
+
+
 Section Codecs.
 Variable enc : bytes -> bytes.
 Variable dec : bytes -> option bytes.
 Variable senc : bytes -> N -> bytes -> option bytes.
 Variable sparse : bytes -> option (bytes * N * bytes * N).
 Variable hash160 : bytes -> bytes.
-Variable sha256 : bytes -> bytes.
 Hypothesis LAWS : codec_laws enc dec senc sparse.
 
 Notation addr_for_script := (address_for_script enc senc hash160).
@@ -1111,17 +1162,17 @@ Proof.
   2:{ right. split; [reflexivity|]. intros h' p' [= <-] [= -> _ _ _]. now rewrite bytes_eqb_refl in E1. }
   apply bytes_eqb_eq in E1. subst hp.
   destruct (length prog =? std_len k)%nat eqn:E2; cbn [negb].
-  2:{ right. split; [reflexivity|]. intros h' p' _ [= _ <- _]. lia. }
+  2:{ right. split; [reflexivity|]. intros h' p' _ [= _ _ <- _]. lia. }
   destruct (std_version k =? ver) eqn:E3; cbn [negb].
-  2:{ right. split; [reflexivity|]. intros h' p' _ [= <- _ _]. lia. }
+  2:{ right. split; [reflexivity|]. intros h' p' _ [= _ Q _ _]. rewrite Q, N.eqb_refl in E3. discriminate. }
   apply N.eqb_eq in E3. subst ver.
   assert (K4 : k <= 4) by lia.
   destruct ((std_version k =? 0) && negb (spec =? enc_bech32)) eqn:E4.
-  { right. split; [reflexivity|]. intros h' p' _ [= _ <-]. unfold spec_for in E4.
-    destruct (std_version k =? 0); cbn in E4; [|discriminate]. now rewrite N.eqb_refl in E4. }
+  { right. split; [reflexivity|]. intros h' p' _ [= _ _ Q]. rewrite Q in E4. unfold spec_for in E4.
+    destruct (std_version k =? 0); cbn in E4; discriminate. }
   destruct (negb (std_version k =? 0) && negb (spec =? enc_bech32m)) eqn:E5.
-  { right. split; [reflexivity|]. intros h' p' _ [= _ <-]. unfold spec_for in E5.
-    destruct (std_version k =? 0); cbn in E5; [discriminate|]. now rewrite N.eqb_refl in E5. }
+  { right. split; [reflexivity|]. intros h' p' _ [= _ _ Q]. rewrite Q in E5. unfold spec_for in E5.
+    destruct (std_version k =? 0); cbn in E5; discriminate. }
   left. exists hrp, prog. apply Nat.eqb_eq in E2.
   assert (SPF : spec = spec_for (std_version k)).
   { unfold spec_for. destruct (std_version k =? 0); cbn [andb negb] in E4, E5.
@@ -1192,25 +1243,354 @@ Lemma parse_address_spec net s :
 Proof.
   rewrite parse_address_unfold.
   destruct (parser_k_cases net 0 s ltac:(lia)) as [(p & L & D & E)|[E0 N0]].
-  { left. exists 0, p. rewrite E. cbn [or_else bind]. repeat split; auto; try lia. intros j Hj. lia. }
+  { left. exists 0, p. rewrite E. cbn [or_else bind]. split; [lia|]. split; [exact L|]. split; [exact D|]. split; [|reflexivity].
+    intros j Hj. lia. }
   rewrite E0. cbn [or_else bind].
   destruct (parser_k_cases net 1 s ltac:(lia)) as [(p & L & D & E)|[E1 N1]].
-  { left. exists 1, p. rewrite E. cbn [or_else bind]. repeat split; auto; try lia.
+  { left. exists 1, p. rewrite E. cbn [or_else bind]. split; [lia|]. split; [exact L|]. split; [exact D|]. split; [|reflexivity].
     intros j Hj. assert (j = 0) by lia. subst. exact N0. }
   rewrite E1. cbn [or_else bind].
   destruct (parser_k_cases net 2 s ltac:(lia)) as [(p & L & D & E)|[E2 N2]].
-  { left. exists 2, p. rewrite E. cbn [or_else bind]. repeat split; auto; try lia.
+  { left. exists 2, p. rewrite E. cbn [or_else bind]. split; [lia|]. split; [exact L|]. split; [exact D|]. split; [|reflexivity].
     intros j Hj. assert (C : j = 0 \/ j = 1) by lia. destruct C as [-> | ->]; assumption. }
   rewrite E2. cbn [or_else bind].
   destruct (parser_k_cases net 3 s ltac:(lia)) as [(p & L & D & E)|[E3 N3]].
-  { left. exists 3, p. rewrite E. cbn [or_else bind]. repeat split; auto; try lia.
+  { left. exists 3, p. rewrite E. cbn [or_else bind]. split; [lia|]. split; [exact L|]. split; [exact D|]. split; [|reflexivity].
     intros j Hj. assert (C : j = 0 \/ j = 1 \/ j = 2) by lia. destruct C as [-> |[-> | ->]]; assumption. }
   rewrite E3. cbn [or_else bind].
   destruct (parser_k_cases net 4 s ltac:(lia)) as [(p & L & D & E)|[E4 N4]].
-  { left. exists 4, p. rewrite E. repeat split; auto; try lia.
+  { left. exists 4, p. rewrite E. split; [lia|]. split; [exact L|]. split; [exact D|]. split; [|reflexivity].
     intros j Hj. assert (C : j = 0 \/ j = 1 \/ j = 2 \/ j = 3) by lia. destruct C as [-> |[-> |[-> | ->]]]; assumption. }
   right. split; [exact E4|]. intros k p Hk.
   assert (C : k = 0 \/ k = 1 \/ k = 2 \/ k = 3 \/ k = 4) by lia.
   destruct C as [->|[->|[->|[->| ->]]]]; auto.
 Qed.
+
+(* what one string can denote on two well-formed networks *)
+Lemma denotes_cross A B s kA kB p p' : net_wf A = true -> net_wf B = true -> kA <= 4 -> kB <= 4 ->
+  length p = std_len kA -> length p' = std_len kB ->
+  address_denotes A s kA p -> address_denotes B s kB p' ->
+  p = p' /\ ((kA <= 1 /\ kB <= 1 /\ kind_prefix A kA = kind_prefix B kB) \/ (2 <= kA /\ kB = kA /\ nr_hrp A = nr_hrp B)).
+Proof.
+  intros WA WB HA HB LA LB DA DB.
+  destruct (wf_facts A WA) as (_ & PA & SA & _ & _ & _). destruct (wf_facts B WB) as (_ & PB & SB & _ & _ & _).
+  assert (b58_short : forall pre q, (length pre <= 2)%nat -> length q = 20%nat -> dec s = Some (pre ++ q) -> (length s <= 39)%nat).
+  { intros pre q L1 L2 D. pose proof (b58_length _ _ _ _ LAWS _ _ D) as Q. rewrite app_length in Q. lia. }
+  assert (seg_long : forall hrp v q spec, (20 <= length q)%nat -> sparse s = Some (hrp, v, q, spec) -> (40 <= length s)%nat).
+  { intros hrp v q spec L D. exact (segwit_length _ _ _ _ LAWS _ _ _ _ _ D L). }
+  assert (b58_case : forall (preA preB : bytes), length p = 20%nat -> length p' = 20%nat ->
+            dec s = Some (preA ++ p) -> dec s = Some (preB ++ p') -> p = p' /\ preA = preB).
+  { intros preA preB L1 L2 D1 D2. rewrite D1 in D2. injection D2 as D2.
+    destruct (app_same_tail_len _ _ _ _ D2 ltac:(lia)) as [-> ->]. auto. }
+  assert (CA : kA = 0 \/ kA = 1 \/ 2 <= kA <= 4) by lia. assert (CB : kB = 0 \/ kB = 1 \/ 2 <= kB <= 4) by lia.
+  assert (LA2 : 2 <= kA <= 4 -> (20 <= length p)%nat).
+  { intros Q. rewrite LA. assert (C : kA = 2 \/ kA = 3 \/ kA = 4) by lia. destruct C as [->|[->| ->]]; cbn; lia. }
+  assert (LB2 : 2 <= kB <= 4 -> (20 <= length p')%nat).
+  { intros Q. rewrite LB. assert (C : kB = 2 \/ kB = 3 \/ kB = 4) by lia. destruct C as [->|[->| ->]]; cbn; lia. }
+  assert (SEGA : 2 <= kA <= 4 -> exists hrp, nr_hrp A = Some hrp /\ sparse s = Some (hrp, std_version kA, p, spec_for (std_version kA))).
+  { intros Q. assert (C : kA = 2 \/ kA = 3 \/ kA = 4) by lia. destruct C as [->|[->| ->]]; exact DA. }
+  assert (SEGB : 2 <= kB <= 4 -> exists hrp, nr_hrp B = Some hrp /\ sparse s = Some (hrp, std_version kB, p', spec_for (std_version kB))).
+  { intros Q. assert (C : kB = 2 \/ kB = 3 \/ kB = 4) by lia. destruct C as [->|[->| ->]]; exact DB. }
+  destruct CA as [->|[->|RA]]; destruct CB as [->|[->|RB]]; cbn [std_len] in LA, LB.
+  - destruct DA as (preA & EA & DA). destruct DB as (preB & EB & DB).
+    destruct (b58_case _ _ LA LB DA DB) as [-> ->]. split; [reflexivity|]. left. cbn [kind_prefix]. rewrite EA, EB. repeat split; lia.
+  - destruct DA as (preA & EA & DA). destruct DB as (preB & EB & DB).
+    destruct (b58_case _ _ LA LB DA DB) as [-> ->]. split; [reflexivity|]. left. cbn [kind_prefix]. rewrite EA, EB. repeat split; lia.
+  - exfalso. destruct DA as (preA & EA & DA). destruct (SEGB RB) as (hrp & _ & DB').
+    pose proof (b58_short _ _ (PA _ EA) LA DA). pose proof (seg_long _ _ _ _ (LB2 RB) DB'). lia.
+  - destruct DA as (preA & EA & DA). destruct DB as (preB & EB & DB).
+    destruct (b58_case _ _ LA LB DA DB) as [-> ->]. split; [reflexivity|]. left. cbn [kind_prefix]. rewrite EA, EB. repeat split; lia.
+  - destruct DA as (preA & EA & DA). destruct DB as (preB & EB & DB).
+    destruct (b58_case _ _ LA LB DA DB) as [-> ->]. split; [reflexivity|]. left. cbn [kind_prefix]. rewrite EA, EB. repeat split; lia.
+  - exfalso. destruct DA as (preA & EA & DA). destruct (SEGB RB) as (hrp & _ & DB').
+    pose proof (b58_short _ _ (SA _ EA) LA DA). pose proof (seg_long _ _ _ _ (LB2 RB) DB'). lia.
+  - exfalso. destruct DB as (preB & EB & DB). destruct (SEGA RA) as (hrp & _ & DA').
+    pose proof (b58_short _ _ (PB _ EB) LB DB). pose proof (seg_long _ _ _ _ (LA2 RA) DA'). lia.
+  - exfalso. destruct DB as (preB & EB & DB). destruct (SEGA RA) as (hrp & _ & DA').
+    pose proof (b58_short _ _ (SB _ EB) LB DB). pose proof (seg_long _ _ _ _ (LA2 RA) DA'). lia.
+  - destruct (SEGA RA) as (hA & EA & DA'). destruct (SEGB RB) as (hB & EB & DB').
+    rewrite DA' in DB'. injection DB' as -> V -> _. split; [reflexivity|]. right.
+    split; [lia|]. split; [|congruence]. symmetry. apply segwit_kind_unique; auto. congruence.
+Qed.
+
+Lemma denotes_own net k p s : k <= 4 -> std_address net k p = Some s -> address_denotes net s k p.
+Proof.
+  intros Hk E. assert (C : k = 0 \/ k = 1 \/ k = 2 \/ k = 3 \/ k = 4) by lia.
+  destruct C as [->|[->|[->|[->| ->]]]]; cbn [std_address address_denotes] in *.
+  - destruct (nr_pkh net) as [pre|]; [|discriminate]. injection E as <-. exists pre. split; [reflexivity|]. apply (b58_decode_encode _ _ _ _ LAWS).
+  - destruct (nr_sh net) as [pre|]; [|discriminate]. injection E as <-. exists pre. split; [reflexivity|]. apply (b58_decode_encode _ _ _ _ LAWS).
+  - destruct (nr_hrp net) as [hrp|]; [|discriminate]. exists hrp. split; [reflexivity|]. now apply (segwit_parse_encode _ _ _ _ LAWS).
+  - destruct (nr_hrp net) as [hrp|]; [|discriminate]. exists hrp. split; [reflexivity|]. now apply (segwit_parse_encode _ _ _ _ LAWS).
+  - destruct (nr_hrp net) as [hrp|]; [|discriminate]. exists hrp. split; [reflexivity|]. now apply (segwit_parse_encode _ _ _ _ LAWS).
+Qed.
+
+Lemma std_address_defined net k p : net_wf net = true -> kind_defined net k -> length p = std_len k ->
+  exists s, std_address net k p = Some s.
+Proof.
+  intros W [Hk D] L. destruct (wf_facts net W) as (_ & _ & _ & _ & HR & _).
+  assert (C : k = 0 \/ k = 1 \/ k = 2 \/ k = 3 \/ k = 4) by lia.
+  destruct C as [->|[->|[->|[->| ->]]]]; cbn [std_address kind_prefix std_len std_version] in *.
+  - destruct (nr_pkh net); [eauto|contradiction].
+  - destruct (nr_sh net); [eauto|contradiction].
+  - destruct (nr_hrp net) as [hrp|] eqn:E; [|contradiction].
+    destruct (senc hrp 0 p) eqn:Q; [eauto|]. exfalso.
+    apply (segwit_encode_defined _ _ _ _ LAWS hrp 0 p (HR _ eq_refl)); [left; auto|exact Q].
+  - destruct (nr_hrp net) as [hrp|] eqn:E; [|contradiction].
+    destruct (senc hrp 0 p) eqn:Q; [eauto|]. exfalso.
+    apply (segwit_encode_defined _ _ _ _ LAWS hrp 0 p (HR _ eq_refl)); [left; auto|exact Q].
+  - destruct (nr_hrp net) as [hrp|] eqn:E; [|contradiction].
+    destruct (senc hrp 1 p) eqn:Q; [eauto|]. exfalso.
+    apply (segwit_encode_defined _ _ _ _ LAWS hrp 1 p (HR _ eq_refl)); [right; auto|exact Q].
+Qed.
+
+Lemma denotes_defined net s k p : k <= 4 -> address_denotes net s k p -> kind_defined net k.
+Proof.
+  intros Hk D. split; [exact Hk|]. assert (C : k = 0 \/ k = 1 \/ k = 2 \/ k = 3 \/ k = 4) by lia.
+  destruct C as [->|[->|[->|[->| ->]]]]; cbn [address_denotes kind_prefix] in *; destruct D as (x & E & _); rewrite E; discriminate.
+Qed.
+
+(* ---- T1: script -> address -> script ---- *)
+Theorem std_roundtrip net k p : net_wf net = true -> kind_defined net k -> length p = std_len k ->
+  for_info (kind_info k p) = Ret (std_script k p) /\
+  exists s, addr_for_script net (std_script k p) = Ret (Some s) /\
+            parse_addr net s = Ret (Some (kind_info k p)) /\
+            contract_for_address dec sparse net s = Ret (Some (std_script k p)).
+Proof.
+  intros W KD L. destruct KD as [Hk D].
+  split; [now apply for_info_std|].
+  destruct (std_address_defined net k p W (conj Hk D) L) as [s E]. exists s.
+  rewrite (address_for_script_std net k p Hk L), E. split; [reflexivity|].
+  pose proof (denotes_own net k p s Hk E) as DN.
+  assert (P : parse_addr net s = Ret (Some (kind_info k p))).
+  { destruct (parse_address_spec net s) as [(k' & p' & Hk' & L' & D' & _ & R)|[_ NO]].
+    - destruct (denotes_cross net net s k k' p p' W W Hk Hk' L L' DN D') as [<- KK]. rewrite R.
+      destruct KK as [(A & B & PE)|(_ & -> & _)]; [|reflexivity].
+      destruct (wf_facts net W) as (_ & _ & _ & NE & _ & _).
+      assert (C : k = 0 \/ k = 1) by lia. assert (C' : k' = 0 \/ k' = 1) by lia.
+      destruct C as [-> | ->]; destruct C' as [-> | ->]; try reflexivity; cbn [kind_prefix] in PE; exfalso.
+      + destruct (nr_pkh net) eqn:E1; [|contradiction]. destruct (nr_sh net) eqn:E2; [|discriminate].
+        injection PE as ->. exact (NE _ _ eq_refl eq_refl eq_refl).
+      + destruct (nr_sh net) eqn:E2; [|contradiction]. destruct (nr_pkh net) eqn:E1; [|discriminate].
+        injection PE as ->. exact (NE _ _ eq_refl eq_refl eq_refl).
+    - exfalso. exact (NO k p Hk L DN). }
+  split; [exact P|]. unfold contract_for_address. rewrite P. cbn [bind]. rewrite (for_info_std k p Hk L). reflexivity.
+Qed.
+
+(* ---- T2: whatever a network accepts is a standard kind with the right payload length, and denotes the same
+        script as its re-encoding ---- *)
+Theorem accept_reencode net s i : net_wf net = true -> parse_addr net s = Ret (Some i) ->
+  exists k p s', kind_defined net k /\ length p = std_len k /\ i = kind_info k p /\
+    address_denotes net s k p /\
+    for_info i = Ret (std_script k p) /\
+    addr_for_script net (std_script k p) = Ret (Some s') /\
+    parse_addr net s' = Ret (Some i).
+Proof.
+  intros W P. destruct (parse_address_spec net s) as [(k & p & Hk & L & D & _ & R)|[R _]]; [|congruence].
+  rewrite R in P. injection P as <-.
+  pose proof (denotes_defined net s k p Hk D) as KD.
+  destruct (std_roundtrip net k p W KD L) as (F & s' & A & P' & _).
+  exists k, p, s'. split; [exact KD|]. repeat split; auto.
+Qed.
+
+(* the accepted text itself, given the two textual codec laws *)
+Theorem accept_reencode_text lower net s i : net_wf net = true -> codec_text_laws enc dec senc sparse lower ->
+  parse_addr net s = Ret (Some i) ->
+  exists k p, i = kind_info k p /\ k <= 4 /\ length p = std_len k /\
+    addr_for_script net (std_script k p) = Ret (Some (if k <=? 1 then s else lower s)).
+Proof.
+  intros W TL P. destruct (parse_address_spec net s) as [(k & p & Hk & L & D & _ & R)|[R _]]; [|congruence].
+  rewrite R in P. injection P as <-. exists k, p. repeat split; auto.
+  rewrite (address_for_script_std net k p Hk L). f_equal.
+  assert (C : k = 0 \/ k = 1 \/ k = 2 \/ k = 3 \/ k = 4) by lia.
+  destruct C as [->|[->|[->|[->| ->]]]]; cbn [address_denotes std_address std_len std_version] in *;
+    destruct D as (x & E & DS); rewrite E; cbn [N.leb N.compare Pos.compare Pos.compare_cont].
+  - f_equal. exact (b58_encode_decode _ _ _ _ _ TL _ _ DS).
+  - f_equal. exact (b58_encode_decode _ _ _ _ _ TL _ _ DS).
+  - apply (segwit_encode_parse _ _ _ _ _ TL _ _ _ _ _ DS eq_refl). left. auto.
+  - apply (segwit_encode_parse _ _ _ _ _ TL _ _ _ _ _ DS eq_refl). left. auto.
+  - apply (segwit_encode_parse _ _ _ _ _ TL _ _ _ _ _ DS eq_refl). right. auto.
+Qed.
+
+(* ---- T3: an address produced on A and accepted on B is B's own address for the script B understood; the payload is
+        the same; the kind is the same for segwit kinds and whenever the Base58 prefixes of A and B do not coincide
+        across kinds ---- *)
+Theorem cross_network A B kA p s i : net_wf A = true -> net_wf B = true -> kind_defined A kA -> length p = std_len kA ->
+  addr_for_script A (std_script kA p) = Ret (Some s) -> parse_addr B s = Ret (Some i) ->
+  exists kB, kind_defined B kB /\ std_len kB = std_len kA /\ i = kind_info kB p /\
+    addr_for_script B (std_script kB p) = Ret (Some s) /\
+    (2 <= kA -> kB = kA) /\ (cross_kind_ok A B = true -> kB = kA).
+Proof.
+  intros WA WB [HA DA] L EA P.
+  rewrite (address_for_script_std A kA p HA L) in EA. injection EA as EA.
+  pose proof (denotes_own A kA p s HA EA) as DNA.
+  destruct (parse_address_spec B s) as [(kB & p' & HB & LB & DB & _ & R)|[R _]]; [|congruence].
+  rewrite R in P. injection P as <-.
+  destruct (denotes_cross A B s kA kB p p' WA WB HA HB L LB DNA DB) as [<- KK].
+  exists kB. pose proof (denotes_defined B s kB p HB DB) as KDB.
+  split; [exact KDB|]. 
+  assert (LEN : std_len kB = std_len kA) by congruence.
+  split; [exact LEN|]. split; [reflexivity|].
+  rewrite (address_for_script_std B kB p HB LB).
+  destruct KK as [(A1 & B1 & PE)|(A2 & -> & HE)].
+  - split.
+    + f_equal. rewrite <- EA.
+      assert (C : kA = 0 \/ kA = 1) by lia. assert (C' : kB = 0 \/ kB = 1) by lia.
+      destruct C as [-> | ->]; destruct C' as [-> | ->]; cbn [std_address kind_prefix] in *; rewrite PE; reflexivity.
+    + split; [lia|]. intros CK. unfold cross_kind_ok in CK. apply andb_true_iff in CK. destruct CK as [CK1 CK2].
+      assert (C : kA = 0 \/ kA = 1) by lia. assert (C' : kB = 0 \/ kB = 1) by lia.
+      destruct C as [-> | ->]; destruct C' as [-> | ->]; try reflexivity; cbn [kind_prefix] in *; exfalso.
+      * destruct (nr_pkh A) as [x|]; [|contradiction]. destruct (nr_sh B) as [y|]; [|discriminate].
+        injection PE as ->. rewrite bytes_eqb_refl in CK1. discriminate.
+      * destruct (nr_sh A) as [x|]; [|contradiction]. destruct (nr_pkh B) as [y|]; [|discriminate].
+        injection PE as ->. rewrite bytes_eqb_refl in CK2. discriminate.
+  - split; [|auto]. f_equal. rewrite <- EA.
+    assert (C : kA = 2 \/ kA = 3 \/ kA = 4) by lia.
+    destruct C as [->|[->| ->]]; cbn [std_address]; rewrite HE; reflexivity.
+Qed.
+
+(* ---- a network gives different standard scripts different addresses ---- *)
+Theorem address_injective net k1 p1 k2 p2 s : net_wf net = true -> kind_defined net k1 -> kind_defined net k2 ->
+  length p1 = std_len k1 -> length p2 = std_len k2 ->
+  addr_for_script net (std_script k1 p1) = Ret (Some s) -> addr_for_script net (std_script k2 p2) = Ret (Some s) ->
+  k1 = k2 /\ p1 = p2.
+Proof.
+  intros W K1 K2 L1 L2 E1 E2.
+  destruct (std_roundtrip net k1 p1 W K1 L1) as (_ & s1 & A1 & P1 & _).
+  destruct (std_roundtrip net k2 p2 W K2 L2) as (_ & s2 & A2 & P2 & _).
+  rewrite E1 in A1. rewrite E2 in A2. injection A1 as <-. injection A2 as <-.
+  rewrite P1 in P2. injection P2 as P2. apply kind_info_inj in P2; [exact P2|apply K1|apply K2].
+Qed.
+
+(* ---- key -> address ---- *)
+Theorem key_address_is_p2pkh net sec : length (hash160 sec) = 20%nat ->
+  addr_for_script net (std_script 0 (hash160 sec)) = Ret (key_address enc hash160 net sec).
+Proof. intros L. rewrite (address_for_script_std net 0 _ ltac:(lia) L). reflexivity. Qed.
+
+Theorem bip84_address_is_p2wpkh net sec : length (hash160 sec) = 20%nat ->
+  bip84_address senc hash160 net sec = addr_for_script net (std_script 2 (hash160 sec)).
+Proof.
+  intros L. rewrite (address_for_script_std net 2 _ ltac:(lia) L).
+  unfold bip84_address, address_for_p2pkh_wit, std_address. destruct (nr_hrp net); [|reflexivity]. now rewrite L.
+Qed.
+
+Theorem bip49_address_is_p2sh_p2wpkh net sec : (forall x, length (hash160 x) = 20%nat) ->
+  bip49_address enc hash160 net sec = addr_for_script net (std_script 1 (hash160 (std_script 2 (hash160 sec)))).
+Proof.
+  intros L. rewrite (address_for_script_std net 1 _ ltac:(lia) (L _)).
+  unfold bip49_address, contract_for_p2pkh_wit. change (IP2PKH_WIT (hash160 sec)) with (kind_info 2 (hash160 sec)).
+  rewrite (for_info_std 2 _ ltac:(lia) (L sec)). reflexivity.
+Qed.
 End Codecs.
+
+(* ============================ the generated table ============================ *)
+Lemma networks_wf : forallb (fun n => implb (nr_std n) (net_wf n)) networks = true.
+Proof. vm_compute. reflexivity. Qed.
+Lemma table_wf net : In net networks -> nr_std net = true -> net_wf net = true.
+Proof.
+  intros I S. pose proof (proj1 (forallb_forall _ _) networks_wf _ I) as K. cbv beta in K. now rewrite S in K.
+Qed.
+Lemma table_kinds net k : In net networks -> nr_std net = true -> (In k (nr_kinds net) <-> kind_defined net k).
+Proof.
+  intros I S. destruct (wf_facts net (table_wf net I S)) as (_ & _ & _ & _ & _ & ->). apply kinds_defined.
+Qed.
+
+(* ---- the theorems over the GENERATED table ---- *)
+Section Table.
+Variable enc : bytes -> bytes.
+Variable dec : bytes -> option bytes.
+Variable senc : bytes -> N -> bytes -> option bytes.
+Variable sparse : bytes -> option (bytes * N * bytes * N).
+Variable hash160 : bytes -> bytes.
+Hypothesis LAWS : codec_laws enc dec senc sparse.
+
+Lemma table_script_address_script net k payload : In net networks -> nr_std net = true -> In k (nr_kinds net) ->
+  length payload = kind_len k ->
+  for_info (kind_info k payload) = Ret (std_script k payload) /\
+  exists s, address_for_script enc senc hash160 net (std_script k payload) = Ret (Some s) /\
+            parse_address dec sparse net s = Ret (Some (kind_info k payload)) /\
+            contract_for_address dec sparse net s = Ret (Some (std_script k payload)).
+Proof.
+  intros I S K L. apply (std_roundtrip enc dec senc sparse hash160 LAWS net k payload (table_wf net I S)).
+  - now apply (table_kinds net k I S).
+  - exact L.
+Qed.
+
+Lemma table_accept_reencode net s i : In net networks -> nr_std net = true ->
+  parse_address dec sparse net s = Ret (Some i) ->
+  exists k payload s', In k (nr_kinds net) /\ length payload = kind_len k /\ i = kind_info k payload /\
+    for_info i = Ret (std_script k payload) /\
+    address_for_script enc senc hash160 net (std_script k payload) = Ret (Some s') /\
+    parse_address dec sparse net s' = Ret (Some i).
+Proof.
+  intros I S P.
+  destruct (accept_reencode enc dec senc sparse hash160 LAWS net s i (table_wf net I S) P) as (k & p & s' & KD & L & E & _ & F & A & P').
+  exists k, p, s'. repeat split; auto. now apply (table_kinds net k I S).
+Qed.
+
+Lemma table_accept_reencode_text lower net s i : codec_text_laws enc dec senc sparse lower ->
+  In net networks -> nr_std net = true -> parse_address dec sparse net s = Ret (Some i) ->
+  exists k payload, i = kind_info k payload /\ k <= 4 /\ length payload = kind_len k /\
+    address_for_script enc senc hash160 net (std_script k payload) = Ret (Some (if k <=? 1 then s else lower s)).
+Proof.
+  intros TL I S P. eapply accept_reencode_text; eauto using table_wf.
+Qed.
+
+Lemma table_cross_network A B kA payload s i : In A networks -> In B networks -> nr_std A = true -> nr_std B = true ->
+  In kA (nr_kinds A) -> length payload = kind_len kA ->
+  address_for_script enc senc hash160 A (std_script kA payload) = Ret (Some s) ->
+  parse_address dec sparse B s = Ret (Some i) ->
+  exists kB, In kB (nr_kinds B) /\ kind_len kB = kind_len kA /\ i = kind_info kB payload /\
+    address_for_script enc senc hash160 B (std_script kB payload) = Ret (Some s) /\
+    (2 <= kA -> kB = kA) /\ (cross_kind_ok A B = true -> kB = kA).
+Proof.
+  intros IA IB SA SB K L EA P.
+  destruct (cross_network enc dec senc sparse hash160 LAWS A B kA payload s i (table_wf A IA SA) (table_wf B IB SB)
+              (proj1 (table_kinds A kA IA SA) K) L EA P) as (kB & KD & LE & E & AD & C1 & C2).
+  exists kB. repeat split; auto. now apply (table_kinds B kB IB SB).
+Qed.
+
+Lemma table_address_injective net k1 p1 k2 p2 s : In net networks -> nr_std net = true ->
+  In k1 (nr_kinds net) -> In k2 (nr_kinds net) -> length p1 = kind_len k1 -> length p2 = kind_len k2 ->
+  address_for_script enc senc hash160 net (std_script k1 p1) = Ret (Some s) ->
+  address_for_script enc senc hash160 net (std_script k2 p2) = Ret (Some s) -> k1 = k2 /\ p1 = p2.
+Proof.
+  intros I S K1 K2. apply (address_injective enc dec senc sparse hash160 LAWS net k1 p1 k2 p2 s (table_wf net I S)).
+  - now apply (table_kinds net k1 I S).
+  - now apply (table_kinds net k2 I S).
+Qed.
+End Table.
+
+(* ---- the codec laws are satisfiable: a toy codec ---- *)
+Definition toy_enc (d : bytes) : bytes := d.
+Definition toy_dec (s : bytes) : option bytes := Some s.
+Definition toy_senc (hrp : bytes) (v : N) (prog : bytes) : option bytes :=
+  if hrp_ok hrp && (v <? 256) then Some (repeatb x00 20 ++ n2b (N.of_nat (length hrp)) :: hrp ++ n2b v :: prog) else None.
+Definition toy_sparse (s : bytes) : option (bytes * N * bytes * N) :=
+  match skipn 20 s with
+  | l :: r => match skipn (N.to_nat (b2n l)) r with
+              | vb :: prog => Some (firstn (N.to_nat (b2n l)) r, b2n vb, prog, spec_for (b2n vb))
+              | [] => None
+              end
+  | [] => None
+  end.
+
+Lemma toy_laws : codec_laws toy_enc toy_dec toy_senc toy_sparse.
+Proof.
+  constructor.
+  - reflexivity.
+  - intros s d H. injection H as <-. lia.
+  - intros hrp v prog s. unfold toy_senc. destruct (hrp_ok hrp && (v <? 256)) eqn:E; [|discriminate].
+    intros H; injection H as <-. apply andb_true_iff in E. destruct E as [E1 E2].
+    unfold hrp_ok in E1. repeat (apply andb_true_iff in E1; destruct E1 as [E1 ?]).
+    unfold toy_sparse. cbn [skipn app repeatb].
+    rewrite b2n_n2b by lia. rewrite Nat2N.id. rewrite skipn_app_exact, firstn_app_exact.
+    rewrite b2n_n2b by lia. reflexivity.
+  - intros hrp v prog H W. unfold toy_senc. rewrite H.
+    replace (v <? 256) with true by (destruct W as [[-> _]|[-> _]]; reflexivity). discriminate.
+  - intros s hrp v prog spec. unfold toy_sparse.
+    destruct (skipn 20 s) as [|l r] eqn:E1; [discriminate|].
+    destruct (skipn (N.to_nat (b2n l)) r) as [|vb q] eqn:E2; [discriminate|].
+    intros H; injection H as _ _ <- _. intros L.
+    pose proof (f_equal (@length _) E1) as Q1. pose proof (f_equal (@length _) E2) as Q2.
+    rewrite skipn_length in Q1, Q2. cbn [length] in Q1, Q2. lia.
+Qed.
